@@ -15,8 +15,11 @@ DEFAULT_OUT = os.path.join(ROOT, "harness", "apis", "src", "generated.rs")
 # slot i -> (parameter name as declared, Rust type).  Spellings: second_param is snake_case (camel alias secondParam),
 # thirdArg is camelCase (snake alias third_arg); p0 and d are the same in both cases (RpcMacro.tla OtherSpelling).
 SLOTS = [("p0", "u64"), ("second_param", "String"), ("thirdArg", "Nested"), ("d", "Vec<u32>")]
+# the "odd" family: (Rust identifier, wire name, attribute) - names that are neither their own snake_case nor their own
+# lowerCamelCase form, and one renamed to something that is not an identifier at all
+ODD = [("_limit", "_limit", ""), ("type_", "type_", ""), ("chainID", "chainID", ""), ("block_hash", "block-hash", '#[argument(rename = "block-hash")] ')]
 PK_CH = {"array": "a", "map": "m"}
-NS_CH = {"none": "n", "under": "u", "dot": "d"}
+NS_CH = {"none": "n", "under": "u", "dot": "d", "odd": "x"}
 
 
 def shape_id(flags, pk, ns):
@@ -32,6 +35,7 @@ def all_shapes(max_params=4):
             for pk in ("array", "map"):
                 for ns in ("none", "under", "dot"):
                     out.append((tuple(flags), pk, ns))
+            out.append((tuple(flags), "map", "odd"))
     return out
 
 
@@ -48,11 +52,12 @@ def _module(flags, pk, ns):
     sid = shape_id(flags, pk, ns)
     n = len(flags)
     tys = [(SLOTS[i][1] if flags[i] == "req" else "Option<%s>" % SLOTS[i][1]) for i in range(n)]
-    names = [SLOTS[i][0] for i in range(n)]
-    sig = "".join(", %s: %s" % (names[i], tys[i]) for i in range(n))
+    names = [(ODD[i][0] if ns == "odd" else SLOTS[i][0]) for i in range(n)]
+    sig = "".join(", %s%s: %s" % ((ODD[i][2] if ns == "odd" else ""), names[i], tys[i]) for i in range(n))
+    isig = "".join(", %s: %s" % (names[i], tys[i]) for i in range(n))          # the impl repeats no attributes
     argv = ", ".join(names)
     pkattr = ", param_kind = map" if pk == "map" else ""
-    if ns == "none":
+    if ns in ("none", "odd"):
         rpc = "#[rpc(server, client)]"
         nm = lambda b: "%s_%s" % (sid, b)       # noqa: E731  the shape id is part of the method name itself
     elif ns == "under":
@@ -81,16 +86,16 @@ def _module(flags, pk, ns):
     w("\tpub struct Impl(pub Log);")
     w("\t#[async_trait]")
     w("\timpl ApiServer for Impl {")
-    w("\t\tfn m_sync(&self%s) -> RpcResult<Echo> {" % sig)
+    w("\t\tfn m_sync(&self%s) -> RpcResult<Echo> {" % isig)
     w('\t\t\tfinish(&self.0, "%s/m_sync", %s)' % (sid, logv))
     w("\t\t}")
-    w("\t\tasync fn m_async(&self%s) -> RpcResult<Echo> {" % sig)
+    w("\t\tasync fn m_async(&self%s) -> RpcResult<Echo> {" % isig)
     w('\t\t\tfinish(&self.0, "%s/m_async", %s)' % (sid, logv))
     w("\t\t}")
-    w("\t\tfn m_blocking(&self%s) -> RpcResult<Echo> {" % sig)
+    w("\t\tfn m_blocking(&self%s) -> RpcResult<Echo> {" % isig)
     w('\t\t\tfinish(&self.0, "%s/m_blocking", %s)' % (sid, logv))
     w("\t\t}")
-    w("\t\tasync fn sub(&self, pending: PendingSubscriptionSink%s) -> SubscriptionResult {" % sig)
+    w("\t\tasync fn sub(&self, pending: PendingSubscriptionSink%s) -> SubscriptionResult {" % isig)
     w('\t\t\tsub_finish(&self.0, pending, "%s/sub", %s).await' % (sid, logv))
     w("\t\t}")
     w("\t}")
